@@ -11,6 +11,10 @@ type propCfg struct {
 	// is reported as a VIOLATION (the report text is saved as the replay artefact); otherwise a
 	// report only makes the run inconclusive.
 	RaceIsViolation bool
+	// Fuzz: native fuzz targets run after the generated search in the thorough tier
+	// (FuzzName -> sub-check whose oracle judges the input; the failing input becomes a replay case of it)
+	Fuzz            map[string]string
+	FuzzTime        time.Duration
 	Tags            string
 	ShardsThorough  int
 	QuickTimeout    time.Duration
